@@ -25,6 +25,14 @@ Definition judge_dfa (text : list line) (o : option tdfa) (expect : option tdfa)
   let m := parse_dfa_with (if product_states then re_product_state else re_word) text in
   worst_code [check (cmp tdfa_eqb o m) 10; match expect with Some e => check (cmp tdfa_eqb o (Some e)) 11 | None => 0 end;
               match m with Some D => check (tdfa_wf_b D) 12 | None => 0 end].
+(* the other state-label patterns the library offers (automaton_algorithms.state_set_regex, state_word_or_set_regex), passed as the
+   rarely used `state_regex` argument: mode 0 = \w+, 1 = product, 2 = set, 3 = word or set *)
+Definition re_word_or_set (t : token) : bool := re_word t || re_set_state t.
+Definition judge_dfa_mode (text : list line) (o : option tdfa) (expect : option tdfa) (mode : nat) : nat :=
+  let re := match mode with 0 => re_word | 1 => re_product_state | 2 => re_set_state | _ => re_word_or_set end in
+  let m := parse_dfa_with re text in
+  worst_code [check (cmp tdfa_eqb o m) 10; match expect with Some e => check (cmp tdfa_eqb o (Some e)) 11 | None => 0 end;
+              match m with Some D => check (tdfa_wf_b D) 12 | None => 0 end].
 Definition judge_nfa (text : list line) (o : option tnfa) (expect : option tnfa) : nat :=
   let m := parse_nfa text in
   worst_code [check (cmp tnfa_eqb o m) 20; match expect with Some e => check (cmp tnfa_eqb o (Some e)) 21 | None => 0 end;
